@@ -27,12 +27,19 @@ CLASSES = {
     'percent': lambda b: b + '%x.h',
     'tilde': lambda b: '~' + b + '.h',
     'colon-paren': lambda b: b + ':(x).h',
+    # plain header names, but OBJECT paths with special characters (the depfile's target side):
+    'obj-space': lambda b: b + '.h',
+    'obj-dollar-hash': lambda b: b + '.h',
 }
+# class -> (executable name, path of util.c): objects are <exe>.int/main.o and <exe>.int/<dir>/util.o
+LAYOUT = {'obj-space': ('my prog', 'sub dir/util.c'), 'obj-dollar-hash': ('pr$g', 's#b/util.c')}
 
 
 class Model:
     def __init__(self, cls):
         self.h = CLASSES[cls]
+        self.exe, self.util = LAYOUT.get(cls, ('prog', 'util.c'))
+        up = '../' * self.util.count('/')
         self.files = {}
         self.vals = {}
         self.n_added = 0
@@ -40,14 +47,16 @@ class Model:
         self.files[c] = '#define VC 3\n'
         self.files[a] = '#include "%s"\n#define VA 1\n' % c
         self.files[b] = '#define VB 2\n'
-        self.files['util.c'] = '#include "%s"\n#include "%s"\nint util(void) { return VB * 100 + VA + 0; }\n' % (a, b)
+        self.files[self.util] = ('#include "%s"\n#include "%s"\nint util(void) { return VB * 100 + VA + 0; }\n'
+                                 % (up + a, up + b))
         self.files['main.c'] = ('#include <stdio.h>\n#include "%s"\nint util(void);\n'
                                 'int main(void) { printf("%%d %%d %%d\\n", VA, VC, util()); return 0 + 0; }\n' % a)
-        self.files['build.bfg'] = "executable('prog', ['main.c', 'util.c'])\n"
+        self.files['build.bfg'] = "executable(%r, ['main.c', %r])\n" % (self.exe, self.util)
 
     def clone(self):
         m = Model.__new__(Model)
         m.h = self.h
+        m.exe, m.util = self.exe, self.util
         m.files = dict(self.files)
         m.n_added = self.n_added
         return m
@@ -67,18 +76,22 @@ class Model:
             if f in seen or f not in self.files:
                 continue
             seen.add(f)
-            todo += re.findall(r'#include "([^"]+)"', self.files[f])
+            todo += [os.path.normpath(os.path.join(os.path.dirname(f), i))
+                     for i in re.findall(r'#include "([^"]+)"', self.files[f])]
         return seen
+
+    def tu(self, base):
+        return self.util if base == 'util.c' else base
 
     def expected_output(self):
         """evaluate the macros by the reference (no compiler)"""
         macros = {}
-        for f in self.closure('main.c') | self.closure('util.c'):
+        for f in self.closure('main.c') | self.closure(self.util):
             for m in re.finditer(r'#define (\w+) (\d+)', self.files[f]):
                 macros[m.group(1)] = int(m.group(2))
         extra = sum(int(x) for x in re.findall(r'#define X\d+ (\d+)', '\n'.join(self.files.values())))
-        um = re.search(r'return VB \* 100 \+ VA \+ (\d+);', self.files['util.c'])
-        um2 = re.search(r'return (\d+) \* 100 \+ VA \+ (\d+);', self.files['util.c'])
+        um = re.search(r'return VB \* 100 \+ VA \+ (\d+);', self.files[self.util])
+        um2 = re.search(r'return (\d+) \* 100 \+ VA \+ (\d+);', self.files[self.util])
         if um:
             util = macros['VB'] * 100 + macros['VA'] + int(um.group(1))
         else:
@@ -99,7 +112,7 @@ def operations(m):
         def f(mm, hname=hname):
             mm.files[hname] = bump(mm.files[hname], r'#define \w+ (\d+)')
         ops.append(('modify ' + hname, [hname], f))
-    for sname, pat in (('main.c', r'return 0 \+ (\d+);'), ('util.c', r'\+ VA \+ (\d+);')):
+    for sname, pat in (('main.c', r'return 0 \+ (\d+);'), (m.util, r'\+ VA \+ (\d+);')):
         def f(mm, sname=sname, pat=pat):
             mm.files[sname] = bump(mm.files[sname], pat)
         ops.append(('modify ' + sname, [sname], f))
@@ -114,10 +127,11 @@ def operations(m):
     if b in m.files:
         def drop(mm):
             val = re.search(r'#define VB (\d+)', mm.files[b]).group(1)
-            mm.files['util.c'] = mm.files['util.c'].replace('#include "%s"\n' % b, '').replace(
+            up = '../' * mm.util.count('/')
+            mm.files[mm.util] = mm.files[mm.util].replace('#include "%s"\n' % (up + b), '').replace(
                 'return VB *', 'return %s *' % val)
             del mm.files[b]
-        ops.append(('drop-include-and-delete ' + b, ['util.c'], drop))
+        ops.append(('drop-include-and-delete ' + b, [m.util], drop))
     c = m.h('c')
     if c in m.files:
         def ren(mm):
@@ -136,6 +150,7 @@ def write_model(src, old, new):
             os.remove(os.path.join(src, f))
     for f, content in new.files.items():
         if old.files.get(f) != content:
+            os.makedirs(os.path.dirname(os.path.join(src, f)), exist_ok=True)
             with open(os.path.join(src, f), 'w') as fh:
                 fh.write(content)
 
@@ -146,14 +161,17 @@ def compiles(cclog):
     if not os.path.exists(cclog):
         return out
     for line in open(cclog, errors='replace'):
-        m = re.search(r' -c (\S*/)?(main|util)\.c ', line + ' ')
-        if m and ' -c ' in line:
-            out.append(m.group(2) + '.c')
+        argv = line.rstrip('\n').split('\x1f')
+        if '-c' in argv:
+            for a in argv:
+                if os.path.basename(a) in ('main.c', 'util.c'):
+                    out.append(os.path.basename(a))
     return sorted(out)
 
 
-def gcc_depfile_roundtrip(hname, scratch, env):
-    """reference without bfg9000: can make consume the depfile gcc writes for this header name?"""
+def gcc_depfile_roundtrip(hname, scratch, env, obj='main.o', enc='main.o'):
+    """reference without bfg9000: can make consume the depfile gcc writes for this header name
+    (and this object path, written `enc` in the hand-written Makefile)?"""
     d = os.path.join(scratch, 'gccref')
     shutil.rmtree(d, ignore_errors=True)
     os.makedirs(d)
@@ -162,17 +180,19 @@ def gcc_depfile_roundtrip(hname, scratch, env):
     with open(os.path.join(d, 'main.c'), 'w') as f:
         f.write('#include "%s"\nint main(void){return V;}\n' % hname)
     with open(os.path.join(d, 'Makefile'), 'w') as f:
-        f.write('main.o: main.c\n\tgcc -c main.c -MMD -MF main.o.d -o main.o\n-include main.o.d\n')
+        q = c04.recipe_arg(obj)
+        f.write('%s: main.c\n\tgcc -c main.c -MMD -MF %s.d -o %s\n-include %s.d\n' % (enc, q, q, enc))
+    os.makedirs(os.path.dirname(os.path.join(d, obj)), exist_ok=True)
     rc, out = c04.run_make(d, env)
     if rc != 0:
         return False
-    m1 = os.stat(os.path.join(d, 'main.o')).st_mtime_ns
+    m1 = os.stat(os.path.join(d, obj)).st_mtime_ns
     rc, out = c04.run_make(d, env)
-    if rc != 0 or os.stat(os.path.join(d, 'main.o')).st_mtime_ns != m1:
+    if rc != 0 or os.stat(os.path.join(d, obj)).st_mtime_ns != m1:
         return False
     proj.modify(os.path.join(d, hname))
     rc, out = c04.run_make(d, env)
-    return rc == 0 and os.stat(os.path.join(d, 'main.o')).st_mtime_ns != m1
+    return rc == 0 and os.stat(os.path.join(d, obj)).st_mtime_ns != m1
 
 
 def _explore(arg):
@@ -188,6 +208,13 @@ def _explore(arg):
             if c04.slot_witness('prereq', 'S/' + hname, hname, root, env0) is None or \
                     c04.slot_witness('target', hname + '.tgt', hname, root, env0) is None:
                 return cls, backend, [], 0, 0, 'excluded: no reference Makefile can name %r' % hname
+        for obj in ('%s.int/main.o' % m0.exe, '%s.int/%s.o' % (m0.exe, m0.util[:-2])):
+            if obj == 'prog.int/main.o' or obj == 'prog.int/util.o':
+                continue
+            enc = c04.slot_witness('target', obj, obj, root, env0)
+            if enc is None or not gcc_depfile_roundtrip('plain.h', root, env0, obj, enc):
+                return cls, backend, [], 0, 0, ('excluded: no hand-written Makefile + gcc depfile can name the '
+                                               'object %r' % obj)
         for hname in m0.headers():
             if not gcc_depfile_roundtrip(hname, root, env0):
                 return cls, backend, [], 0, 0, ('excluded: a depfile written by gcc itself for %r is not '
@@ -195,7 +222,7 @@ def _explore(arg):
     cclog = os.path.join(root, 'cc.log')
     wrap = os.path.join(root, 'ccwrap')
     with open(wrap, 'w') as f:
-        f.write('#!/bin/sh\nprintf \'%%s\\n\' "$*" >> %s\nexec /usr/bin/gcc "$@"\n' % cclog)
+        f.write('#!/bin/sh\n{ printf \'%%s\\037\' "$@"; echo; } >> %s\nexec /usr/bin/gcc "$@"\n' % cclog)
     os.chmod(wrap, 0o755)
     src, bld = os.path.join(root, 'p', 'src'), os.path.join(root, 'p', 'bld')
     os.makedirs(src)
@@ -217,7 +244,7 @@ def _explore(arg):
             return False
         if expect_tus is not None and got != sorted(expect_tus):
             viol.append(('compile-set', label, 'compiled %r, expected exactly %r' % (got, sorted(expect_tus))))
-        p = subprocess.run([os.path.join(bld, 'prog')], stdout=subprocess.PIPE, text=True)
+        p = subprocess.run([os.path.join(bld, model.exe)], stdout=subprocess.PIPE, text=True)
         want_out, want_rc = model.expected_output()
         if p.stdout.strip() != want_out or p.returncode != want_rc:
             viol.append(('program-output', label, 'prog printed %r (exit %d), the sources say %r (exit %d)'
@@ -256,7 +283,7 @@ def _explore(arg):
                 write_model(src, model, m2)
                 proj.tick()
                 expect = [tu for tu in ('main.c', 'util.c')
-                          if set(changed) & (m2.closure(tu) | model.closure(tu))]
+                          if set(changed) & (m2.closure(m2.tu(tu)) | model.closure(model.tu(tu)))]
                 ok = build(label, expect, m2)
                 if ok and m2.key() not in seen:
                     seen.add(m2.key())
